@@ -355,7 +355,15 @@ where
                     match next {
                         // Wait for notification when the stream goes pending
                         Poll::Pending       => {
-                            stream_core.lock().unwrap().notify_stream_closed = Some(desync_waker.clone());
+                            let mut stream_core = stream_core.lock().unwrap();
+
+                            // If the output stream was dropped while we were processing, nothing will wake us to finish closing the pipe
+                            // (the drop only wakes a notifier that's already registered), so finish up now
+                            if stream_core.closed {
+                                return false;
+                            }
+
+                            stream_core.notify_stream_closed = Some(desync_waker.clone());
                             return true
                         },
 
